@@ -1,7 +1,7 @@
 (* The shutdown protocol of the async client (core/src/client/async_client/mod.rs):
      send_task, read_task, wait_for_shutdown, ErrorFromBack::read_error, Client::{is_connected,on_disconnect},
    as a labelled transition system
-       step : bool (* old send_task epilogue? *) -> state -> label -> state
+       step : variant (* which send_task epilogue *) -> state -> label -> state
    over exactly the channels of the code:
      close_tx   mpsc(1) `send_receive_task_sync`, senders = send task + read task, receiver = the watcher
                 (slot : one buffered result; rx_closed : the watcher dropped its receiver)
@@ -13,9 +13,12 @@
    quantified label list: a label that is not enabled in a state is a stutter step, so EVERY list of labels is
    a trace and "for all traces" is `forall tr : list label`.
 
-   Modelled as the code is NOW (send_task epilogue: report, await close_tx.closed(), close the front channel,
-   close the transport).  The OLD epilogue (close front channel, close transport, report) is kept as the
-   `old = true` variant of `step` for the `_refuted_old` witnesses.
+   Modelled as the code is NOW = variant VNow (send_task epilogue: report, await close_tx.closed(), drop the front
+   receiver with its queue and the manager handle, THEN close the transport).  Two earlier epilogues are kept as
+   variants of `step` for the `_refuted_old` witnesses:
+     VLateDrop  report, await closed, close the front channel, close the transport; the queue and the manager
+                handle are dropped only when send_task returns, i.e. after close() has completed
+     VOldOrder  close the front channel, close the transport, report (and the late drop).
 
    What the transport can do: `TransportReceiverT::receive` returns `Result<ReceivedMessage, Error>`: there is
    no end-of-stream value, and read_task wraps the receiver in `stream::unfold` that always yields `Some`, so
@@ -26,8 +29,9 @@
    Granularity: send task = loop iteration | report (close_tx.send) | close_tx.closed() seen | front channel closed
    (transport close() starts) | transport close() completed + locals dropped; read task = loop iteration / notice |
    report | locals dropped; watcher = receive | store the reason | drop the receiver.  A caller whose message is
-   still queued sees its oneshot dropped when the send task's receiver is dropped (end of send_task); a caller
-   registered in the manager sees it when BOTH tasks have dropped their manager handle.
+   still queued sees its oneshot dropped when the send task's receiver is dropped; a caller registered in the
+   manager sees it when BOTH tasks have dropped their manager handle.  The send task drops both at the
+   front-channel step (VNow) or when it returns (VLateDrop, VOldOrder).
 
    Left out: the capacity of the front channel (a caller blocked on a full channel behaves like a later
    LNewCall), ping/inactivity (an inactivity timeout is a receive fault; a failed ping is LSendFault with an
@@ -157,7 +161,11 @@ Inductive label :=
 | LCallerDropped (h : handle)    (* the caller's oneshot receiver sees its sender dropped *)
 | LReadErr (h : handle).         (* read_error: conn.closed() resolved, reason read *)
 
-Definition after_break (old : bool) (r : res) : spc := if old then OCloseFront r else SReport r.
+Inductive variant := VNow | VLateDrop | VOldOrder.
+Definition old_order (v : variant) : bool := match v with VOldOrder => true | _ => false end.
+Definition early_drop (v : variant) : bool := match v with VNow => true | _ => false end.
+
+Definition after_break (old : variant) (r : res) : spc := if old_order old then OCloseFront r else SReport r.
 
 (* close_tx.send: the value enters the buffer unless the receiver is gone *)
 Definition push (s : state) (r : res) : state :=
@@ -176,7 +184,12 @@ Definition rp_is_loop (s : state) : bool := match rp s with RLoop => true | _ =>
 Definition sp_exited (s : state) : bool := match sp s with SExited => true | _ => false end.
 Definition rp_exited (s : state) : bool := match rp s with RExited => true | _ => false end.
 
-Definition enabled (old : bool) (s : state) (l : label) : bool :=
+Definition sp_closing_b (x : spc) : bool := match x with SClosing | SExited => true | _ => false end.
+(* the send task has dropped the front receiver (with its queue) and its manager handle *)
+Definition sender_let_go (old : variant) (s : state) : bool :=
+  if early_drop old then sp_closing_b (sp s) else sp_exited s.
+
+Definition enabled (old : variant) (s : state) (l : label) : bool :=
   match l with
   | LSendOk => sp_is_loop s && negb (rx_closed s) && negb (is_none (hd_error (fqueue s)))
   | LSendFault => sp_is_loop s && negb (rx_closed s)
@@ -199,14 +212,14 @@ Definition enabled (old : bool) (s : state) (l : label) : bool :=
   | LNewCall h | LOnDisc h => negb (dropped s) && is_none (get_c s h)
   | LCallerDropped h =>
     match get_c s h with
-    | Some CQueued => sp_exited s                       (* the front receiver was dropped with its queue *)
-    | Some CInMgr => sp_exited s && rp_exited s         (* both holders of the manager are gone *)
+    | Some CQueued => sender_let_go old s                  (* the front receiver was dropped with its queue *)
+    | Some CInMgr => sender_let_go old s && rp_exited s    (* both holders of the manager are gone *)
     | _ => false
     end
   | LReadErr h => is_readerr (get_c s h) && front_closed s
   end.
 
-Definition effect (old : bool) (s : state) (l : label) : state :=
+Definition effect (old : variant) (s : state) (l : label) : state :=
   match l with
   | LSendOk => pop_to_mgr s
   | LSendFault => set_sp (pop_to_mgr s) (after_break old (Some CSend))
@@ -218,7 +231,7 @@ Definition effect (old : bool) (s : state) (l : label) : state :=
     | _ => s
     end
   | LSClosedSeen => set_sp s SCloseFront
-  | LSCloseFront =>
+  | LSCloseFront =>     (* NOW: drop(from_frontend); drop(manager) -- see sender_let_go *)
     match sp s with
     | OCloseFront r => set_sp (set_front_closed s) (OClosing r)
     | _ => set_sp (set_front_closed s) SClosing
@@ -256,10 +269,10 @@ Definition effect (old : bool) (s : state) (l : label) : state :=
     set_c s h (CDone (match reason s with Some c => OCause c | None => OPlaceholder end))
   end.
 
-Definition step (old : bool) (s : state) (l : label) : state :=
+Definition step (old : variant) (s : state) (l : label) : state :=
   if enabled old s l then effect old s l else s.
 
-Definition run (old : bool) (s : state) (tr : list label) : state := fold_left (step old) tr s.
+Definition run (old : variant) (s : state) (tr : list label) : state := fold_left (step old) tr s.
 
 (* Client::is_connected *)
 Definition is_connected (s : state) : bool := negb (front_closed s).
@@ -290,14 +303,14 @@ Definition started (s : state) : bool :=
 
 (* a scheduler for the protocol steps: the watcher first, then the send task, then the read task.
    `slow` = the transport's close() does not complete by itself. *)
-Definition next_proto (old slow : bool) (s : state) : option label :=
+Definition next_proto (old : variant) (slow : bool) (s : state) : option label :=
   let pick (l : label) (k : option label) := if enabled old s l then Some l else k in
   pick LWStore (pick LWExit (pick LWRecv (pick LWDropped
   (pick LSNotice (pick LSReport (pick LSClosedSeen (pick LSCloseFront
   ((if slow then (fun k => k) else pick LSTransportClosed)
   (pick LRNotice (pick LRReport (pick LRExit None))))))))))).
 
-Fixpoint drive (old slow : bool) (fuel : nat) (s : state) : state :=
+Fixpoint drive (old : variant) (slow : bool) (fuel : nat) (s : state) : state :=
   match fuel with
   | O => s
   | S f => match next_proto old slow s with Some l => drive old slow f (step old s l) | None => s end
@@ -381,8 +394,8 @@ Definition mgr_drain (x : ClientMgr.st) : ClientMgr.st * list ClientMgr.out :=
 
 Definition first_caller_step (c : state) : option label :=
   let try_h (hc : handle * cpc) :=
-    if enabled false c (LCallerDropped (fst hc)) then Some (LCallerDropped (fst hc))
-    else if enabled false c (LReadErr (fst hc)) then Some (LReadErr (fst hc)) else None in
+    if enabled VNow c (LCallerDropped (fst hc)) then Some (LCallerDropped (fst hc))
+    else if enabled VNow c (LReadErr (fst hc)) then Some (LReadErr (fst hc)) else None in
   fold_right (fun hc acc => match try_h hc with Some l => Some l | None => acc end) None (callers c).
 
 (* the runtime polled to quiescence *)
@@ -391,7 +404,7 @@ Fixpoint quiesce (fuel : nat) (y : sys) : sys * list sout :=
   | O => (y, [])
   | S f =>
     let c := y_cs y in
-    if enabled false c LSendOk then
+    if enabled VNow c LSendOk then
       match hd_error (fqueue c) with
       | Some h =>
         match alookup N.eqb h (y_pend y) with
@@ -399,18 +412,18 @@ Fixpoint quiesce (fuel : nat) (y : sys) : sys * list sout :=
           let '(m1, o1, _) := ClientMgr.apply (y_ms y) e in
           let '(m2, o2) := mgr_drain m1 in
           let l := if newly_dying (y_ms y) m2 then LSendFault else LSendOk in
-          let '(y', o) := quiesce f (upd_ms (upd_cs y (step false c l)) m2) in
+          let '(y', o) := quiesce f (upd_ms (upd_cs y (step VNow c l)) m2) in
           (y', mgr_outs (o1 ++ o2) ++ o)
-        | None => quiesce f (upd_cs y (step false c LSendOk))
+        | None => quiesce f (upd_cs y (step VNow c LSendOk))
         end
       | None => (y, [])
       end
     else
-      match next_proto false (y_slow y && negb (y_released y)) c with
-      | Some l => quiesce f (upd_cs y (step false c l))
+      match next_proto VNow (y_slow y && negb (y_released y)) c with
+      | Some l => quiesce f (upd_cs y (step VNow c l))
       | None =>
         match first_caller_step c with
-        | Some l => quiesce f (upd_cs y (step false c l))
+        | Some l => quiesce f (upd_cs y (step VNow c l))
         | None => (y, [])
         end
       end
@@ -427,7 +440,6 @@ Definition diff_done (a b : state) (ondisc : list handle) : list sout :=
     | None, Some o => if existsb (N.eqb h) ondisc then [YDisc h o] else [YFail h o]
     | _, _ => []
     end) (callers b).
-Definition sp_closing_b (x : spc) : bool := match x with SClosing | SExited => true | _ => false end.
 Definition diff_x (a b : state) : list sout :=
   (if negb (sp_closing_b (sp a)) && sp_closing_b (sp b) then [YX 0] else []) ++
   (if negb (sp_exited a) && sp_exited b then [YX 1] else []) ++
@@ -437,36 +449,36 @@ Definition do_cmd (y : sys) (k : cmd) : sys * list sout :=
   let c := y_cs y in
   match k with
   | KCall h e =>
-    ({| y_cs := step false c (LNewCall h); y_ms := y_ms y; y_slow := y_slow y; y_released := y_released y;
+    ({| y_cs := step VNow c (LNewCall h); y_ms := y_ms y; y_slow := y_slow y; y_released := y_released y;
         y_mdead := y_mdead y; y_pend := (h, e) :: y_pend y; y_ondisc := y_ondisc y |}, [])
   | KOnDisc h =>
-    ({| y_cs := step false c (LOnDisc h); y_ms := y_ms y; y_slow := y_slow y; y_released := y_released y;
+    ({| y_cs := step VNow c (LOnDisc h); y_ms := y_ms y; y_slow := y_slow y; y_released := y_released y;
         y_mdead := y_mdead y; y_pend := y_pend y; y_ondisc := h :: y_ondisc y |}, [])
   | KIsConn => (y, if dropped c then [] else [YConn (is_connected c)])
   | KNext h => let '(m', r) := poll_next (y_ms y) h in (upd_ms y m', [YNext r])
   | KBack raw =>
-    if enabled false c LRecvFault then        (* the read task is in its loop *)
+    if enabled VNow c LRecvFault then        (* the read task is in its loop *)
       let '(m1, o1, _) := ClientMgr.apply (y_ms y) (Back raw) in
       if newly_dying (y_ms y) m1 then
         match dying m1 with
-        | Some f => (upd_ms (upd_cs y (step false c (LBadFrame f))) m1, mgr_outs o1)
+        | Some f => (upd_ms (upd_cs y (step VNow c (LBadFrame f))) m1, mgr_outs o1)
         | None => (y, [])
         end
       else
-        let c1 := fold_left (fun c' h => step false c' (LAnswer h)) (answered o1) c in
-        if enabled false c1 LSendFault then    (* the send task is in its loop: it takes what the read task forwarded *)
+        let c1 := fold_left (fun c' h => step VNow c' (LAnswer h)) (answered o1) c in
+        if enabled VNow c1 LSendFault then    (* the send task is in its loop: it takes what the read task forwarded *)
           let '(m2, o2) := mgr_drain m1 in
-          let c2 := if newly_dying m1 m2 then step false c1 LSendFault else c1 in
+          let c2 := if newly_dying m1 m2 then step VNow c1 LSendFault else c1 in
           (upd_ms (upd_cs y c2) m2, mgr_outs (o1 ++ o2))
         else (upd_ms (upd_cs y c1) m1, mgr_outs o1)
     else (y, [])
   | KFailSend => let '(m1, _, _) := ClientMgr.apply (y_ms y) FailSend in (upd_ms y m1, [])
-  | KRecvFault => (upd_cs y (step false c LRecvFault), [])
-  | KPeerClose => (upd_cs y (step false c LPeerClose), [])
+  | KRecvFault => (upd_cs y (step VNow c LRecvFault), [])
+  | KPeerClose => (upd_cs y (step VNow c LPeerClose), [])
   | KReleaseClose =>
     ({| y_cs := c; y_ms := y_ms y; y_slow := y_slow y; y_released := true; y_mdead := y_mdead y;
         y_pend := y_pend y; y_ondisc := y_ondisc y |}, [])
-  | KDropClient => (upd_cs y (step false c LClientDrop), [])
+  | KDropClient => (upd_cs y (step VNow c LClientDrop), [])
   | KSettle => (y, [])
   end.
 
@@ -476,7 +488,7 @@ Definition script_step (y : sys) (k : cmd) : sys * list sout :=
   let '(y2, o2) := quiesce (24 + length (fqueue c1) + 2 * length (callers c1)) y1 in
   let c2 := y_cs y2 in
   let y3 :=
-    if sp_exited c2 && rp_exited c2 && negb (y_mdead y2) then
+    if sender_let_go VNow c2 && rp_exited c2 && negb (y_mdead y2) then     (* both manager handles are gone: the sinks go *)
       {| y_cs := c2; y_ms := fst (kill (y_ms y2) FTransport); y_slow := y_slow y2; y_released := y_released y2;
          y_mdead := true; y_pend := y_pend y2; y_ondisc := y_ondisc y2 |}
     else y2 in
